@@ -8,6 +8,7 @@ from vlib import cgen, ref
 from vlib.harness import SubCheck, must, require, HarnessError
 
 PROPERTY_ID = "C02"
+TECHNIQUE = 'exhaustive gate table x generated parameters (Hypothesis) against independent closed forms; algebraic laws (group law, fixed relations); metamorphic derivation histories'
 RULE = (
     "All 27 built-in gates x Hypothesis-drawn parameter tuples (Python floats in [-4pi,4pi], "
     "multiples of pi/4, 0, +-1e-9, +-1e3, ints): matrix computable, shape, unitarity, "
